@@ -8,7 +8,9 @@
 // sending.  Oracle (properties.jsonl C09, last sentence): after a torn write
 // no further bytes are written to the stream, every later send fails, and a
 // Decoder over the captured bytes yields only complete messages.
-package main
+// Package c09torn is part (b) of the C09 check: torn writes on the real
+// stream transports.  It is linked into the c09 harness as one more family.
+package c09torn
 
 import (
 	"bytes"
@@ -485,18 +487,19 @@ func runCase(q seqSpec, fc faultCase, r *vlib.Rec) {
 	judge(q, fc, frames, rwc, recs, r)
 }
 
-func main() {
-	vlib.Main(vlib.Spec{
-		ID:    "C09",
-		Level: "fault_enumeration",
-		Rule: "part (b) torn writes: real rpc.NewStreamTransport and rpc.NewPackedStreamTransport over an in-memory io.ReadWriteCloser without deadline methods; every sequence of 1..3 rpc messages over {Finish (1 segment), Call with 5-byte params (1 segment), Call with 1100-byte params (2 segments)} followed by three more sends; for EVERY Write call index j issued while sending the base sequence and every short count k in [0,len(b)) (quick: all k for buffers <=32 bytes, 23 boundary values otherwise; thorough: all k) that one Write returns (k, err) and all other writes succeed. Non-trivial = a faulty run whose j-th Write happened and whose result was judged (all (sequence, j, k) triples are distinct), plus one healthy run per sequence.",
-		Assumptions: []string{
+// Rule describes the enumeration of this part.
+const Rule = "part (b) torn writes: real rpc.NewStreamTransport and rpc.NewPackedStreamTransport over an in-memory io.ReadWriteCloser without deadline methods; every sequence of 1..3 rpc messages over {Finish (1 segment), Call with 5-byte params (1 segment), Call with 1100-byte params (2 segments)} followed by three more sends; for EVERY Write call index j issued while sending the base sequence and every short count k in [0,len(b)) (quick: all k for buffers <=32 bytes, 23 boundary values otherwise; thorough: all k) that one Write returns (k, err) and all other writes succeed. Non-trivial = a faulty run whose j-th Write happened and whose result was judged (all (sequence, j, k) triples are distinct), plus one healthy run per sequence."
+
+// Assumptions of this part.
+var Assumptions = []string{
 			"a frame is torn when at least one and not all of its bytes were accepted by the stream; a Write failing with 0 bytes at the first Write of a frame leaves the stream at a frame boundary and whether later sends are then refused is left open (outcome)",
 			"expected frame bytes of each send are taken from a healthy run of the same sends in the same case and are themselves checked against an independent spec framing (and ref.Unpack for the packed transport)",
 			"packed receiver: when only the final run-count byte of the torn frame is missing, packed.Reader hands out all words of that frame (C13/C14 late report); the Decoder then returns the true torn message, which is counted as an outcome, not as garbage",
 			"contract of Transport.NewMessage followed: send called at most once, release called afterwards, CapTable nil; context.Background so no goroutines or timers take part",
-		},
-		Families: func(tier string) []vlib.Family {
+}
+
+// Families returns the torn-write family.
+func Families(tier string) []vlib.Family {
 			specs := seqSpecs()
 			var cases []faultCase
 			for si, q := range specs {
@@ -522,6 +525,4 @@ func main() {
 					return fmt.Sprintf("%s; Write #%d (%d bytes) returns (%d, err)", q, fc.j, q.lens[fc.j], fc.k)
 				},
 			}}
-		},
-	})
 }
